@@ -368,11 +368,10 @@ def r10_7(ctx):
     r03_3(ctx)  # assignment / store / register write / return / jump widths
 
 
-@rule("R10.8", "C10", "temporaries and registers keep their sort: h_tmpN carries sign, width and boolness of the operation's value; register operands get their architectural width", min_instances=45)
-def r10_8(ctx):
+def hybrid_temp_type_checks(ctx):
+    """the temporary of a value-producing operation is typed like the operation's value (a bool stays a bool: its readers
+    decide NON_ZERO / ITE-vs-CAST by the BOOL flag)"""
     idx = get_index(ctx.env)
-    # --- the temporary of a value-producing operation is typed like the operation's value (a bool stays a bool: its
-    #     readers decide NON_ZERO / ITE-vs-CAST by the BOOL flag)
     for name, signed, width, groups in (("int", True, 32, ("PURE",)), ("wide unsigned", False, 64, ("PURE",)), ("narrow", True, 8, ("PURE",)), ("bool", False, 1, ("PURE", "BOOL"))):
         r = Runner(idx, keep_real=("resolve_hybrid",))
         def rh_args():
@@ -393,6 +392,12 @@ def r10_8(ctx):
             ret = o.value
             same = isinstance(ret, AObj) and tmps and ret is tmps[0]
             ctx.check(f"resolve_hybrid returns that temporary [{name} value]", bool(same), "the LocalVar h_tmpN", lab(ret)[:60], fn_where(idx, fi), nontrivial=False)
+
+
+@rule("R10.8", "C10", "temporaries and registers keep their sort: h_tmpN carries sign, width and boolness of the operation's value; register operands get their architectural width", min_instances=45)
+def r10_8(ctx):
+    idx = get_index(ctx.env)
+    hybrid_temp_type_checks(ctx)
     # --- register operand widths (table shared with C07)
     from .c07 import r07_1, r07_8
 
